@@ -204,16 +204,42 @@ def cv(args, timeout=600, input_text=None):
     return p.stdout
 
 
-def drive_trace(cmd_args, out, n_cases, timeout=600, max_crashes=4, on_crash=None):
+CV_ASAN = os.path.join(HARNESS, "target-asan", "x86_64-unknown-linux-gnu", "release", "cv")
+
+
+def build_harness_asan():
+    """AddressSanitizer build of the harness (nightly toolchain, offline). Makes reads/writes of freed
+    interpreter memory visible as aborts. Returns the binary path, or None when the toolchain cannot build it."""
+    env = dict(os.environ, CARGO_NET_OFFLINE="true", RUSTFLAGS="-Zsanitizer=address",
+               CARGO_TARGET_DIR=os.path.join(HARNESS, "target-asan"))
+    p = subprocess.run(["cargo", "+nightly", "build", "--release", "--offline", "--bin", "cv", "--target", "x86_64-unknown-linux-gnu"],
+                       cwd=HARNESS, env=env, stdout=subprocess.PIPE, stderr=subprocess.STDOUT, text=True)
+    if p.returncode != 0 or not os.path.exists(CV_ASAN):
+        return None
+    return CV_ASAN
+
+
+def asan_summary(stderr):
+    lines = stderr.splitlines()
+    for i, l in enumerate(lines):
+        if "ERROR: AddressSanitizer" in l:
+            frames = [x.strip() for x in lines[i + 1:i + 60] if "cao_lang" in x or "cao-lang" in x][:4]
+            what = l.split("AddressSanitizer:")[1].strip().split(" on address")[0]
+            return what + " | " + " | ".join(re.sub(r"^#\d+ 0x[0-9a-f]+ in ", "", f) for f in frames)
+    return None
+
+
+def drive_trace(cmd_args, out, n_cases, timeout=600, max_crashes=4, on_crash=None, binary=None):
     """Run an impl->spec driver `cv <cmd_args> --out OUT --start-case K [--append 1]` with crash isolation
     (see harness util.rs TraceWriter). Returns the number of crashes/hangs turned into records."""
     start, crashes = 0, 0
     if os.path.exists(out):
         os.remove(out)
     while True:
-        args = [CV] + [str(a) for a in cmd_args] + ["--out", out, "--start-case", str(start), "--append", "1" if start else "0"]
+        args = [binary or CV] + [str(a) for a in cmd_args] + ["--out", out, "--start-case", str(start), "--append", "1" if start else "0"]
         try:
-            p = subprocess.run(args, stdout=subprocess.PIPE, stderr=subprocess.PIPE, text=True, timeout=timeout)
+            p = subprocess.run(args, stdout=subprocess.PIPE, stderr=subprocess.PIPE, text=True, timeout=timeout,
+                               env=dict(os.environ, ASAN_OPTIONS="detect_leaks=0:abort_on_error=0:symbolize=1"))
             rc = p.returncode
         except subprocess.TimeoutExpired:
             raise ToolError("driver timed out: " + " ".join(map(str, cmd_args)))
@@ -226,6 +252,9 @@ def drive_trace(cmd_args, out, n_cases, timeout=600, max_crashes=4, on_crash=Non
         info = json.load(open(pend))
         os.remove(pend)
         kind = "hang" if rc == 3 else "abort"
+        asan = asan_summary(p.stderr)
+        if asan:
+            rc = "asan: " + asan
         with open(out, "a") as f:
             rec = on_crash(info, kind, rc) if on_crash else {"case": info["case"], "op": info["op"], "ret": {kind: rc}, "proj": {kind: True}}
             f.write(json.dumps(rec) + "\n")
